@@ -37,7 +37,11 @@ Expected(ln, psi, gates) ==
     [] ln.kind = "marg"   -> Marginal(psi, ln.where, ln.fix, n)
 QueryClauses(ln, psi, gates) ==
   IF ln.kind \in {"sample", "gbg"}
-  THEN << <<"SampleInSupport", ln.exc = "" /\ ln.vok /\ \A k \in DOMAIN ln.val : ~IsZero(Prob(psi, ln.val[k]))>> >>
+  THEN \* (a sample of a subset `qubits` must have non-zero marginal probability)
+       << <<"SampleInSupport", ln.exc = "" /\ ln.vok /\ \A k \in DOMAIN ln.val :
+               IF Has(ln, "qubits") /\ ln.qubits # <<>>
+               THEN ~IsZero(Marginal(psi, ln.qubits, <<>>, n)[BitsIdx(ln.val[k], 1) + 1])
+               ELSE ~IsZero(Prob(psi, ln.val[k]))>> >>
   ELSE IF ln.kind = "sampleprob"
   THEN << <<"SampleInSupport", ln.exc = "" /\ ln.vok /\ \A k \in DOMAIN ln.val : ~IsZero(Prob(psi, ln.val[k][1]))>>,
           <<"SampleProbTrue",  ln.exc = "" /\ ln.vok /\ \A k \in DOMAIN ln.val : ln.val[k][2] = Prob(psi, ln.val[k][1])>> >>
